@@ -267,6 +267,12 @@ use std::{
 
 #[paw::main]
 fn main(args: Args) {
+    #[cfg(feature = "verif-hooks")]
+    if let Ok(path) = std::env::var("EMU2A_VERIF_SCRIPT") {
+        let script = fs::read_to_string(path).expect("script");
+        tui::Tui::verif_run_script(&script);
+        return;
+    }
     let temp_path = std::env::temp_dir().join("2a-emulator.log");
     initialize_logger(&args, &temp_path).expect("Failed to initialize logger");
     register_panic_logger();
